@@ -35,7 +35,7 @@ REACHABLE_RAISES = {
 }
 
 
-LATER_RULES = " Later rules: (R4.i) keyless orderings of tuples that can hold None; (R4.j) operations on other modules for import tracing sit in handlers; (R4.k) constant-index access to regex match lists; (R4.l) contradiction rule for snippet parses; (R4.m) validity oracles are total (SyntaxError, ValueError, RecursionError, MemoryError); (R4.n) program text handed to sympy's parser is fenced for Exception; (R4.o) loosely annotated options are normalised before set algebra; (R4.p) = C17 R17.9; (R4.q) constant-index access to possibly-empty list fields is justified by path facts, the selecting template (sa/shapes.py) or the grammar, three-valued; (R4.r) contradiction rule for computed indexes; (R4.s) operator fields of constructed nodes have the right category; (R4.t) unbound set methods are not applied to frozensets; (R4.u) no call on the tracing path executes code of the analysed project (find_spec of dotted names, import_module outside the standard library); (R4.v) format_code is fenced against the depth of the syntax tree (RecursionError hands the input back); (R4.w) a cut byte string is decoded with an errors policy that cannot raise."
+LATER_RULES = " Later rules: (R4.i) keyless orderings of tuples that can hold None; (R4.j) operations on other modules for import tracing sit in handlers; (R4.k) constant-index access to regex match lists; (R4.l) contradiction rule for snippet parses; (R4.m) validity oracles are total (SyntaxError, ValueError, RecursionError, MemoryError); (R4.n) program text handed to sympy's parser is fenced for Exception; (R4.o) loosely annotated options are normalised before set algebra; (R4.p) = C17 R17.9; (R4.q) constant-index access to possibly-empty list fields is justified by path facts, the selecting template (sa/shapes.py) or the grammar, three-valued; (R4.r) contradiction rule for computed indexes; (R4.s) operator fields of constructed nodes have the right category; (R4.t) unbound set methods are not applied to frozensets; (R4.u) no call on the tracing path executes code of the analysed project (find_spec of dotted names, import_module outside the standard library); (R4.v) format_code is fenced against the depth of the syntax tree (RecursionError hands the input back); (R4.w) a cut byte string is decoded with an errors policy that cannot raise; (R4.x) of several substitutions with the same ambiguous repeated group the run limiter comes first (backtracking cost)."
 
 
 def check(prog: Program, tier: str) -> Result:
@@ -79,6 +79,7 @@ def check(prog: Program, tier: str) -> Result:
     _r4_u(prog, res)
     _r4_v(prog, res)
     _r4_w(prog, res)
+    _r4_x(prog, res)
     _r4_k(prog, res)
     _r4_l(prog, res)
     _r4_m(prog, res)
@@ -94,7 +95,7 @@ def check(prog: Program, tier: str) -> Result:
     _tmp = Result("C17", "", "")
     _c17._r17_9(prog, _tmp)
     res.adopt(_tmp, {"R17.9"}, "R4.p", "an unpinned constant can be a str or None: the operation raises TypeError out of the rule and out of format_code")
-    res.floors.update({"R4.w": 1, "R4.v": 1, "R4.u": 2, "R4.t": 1, "R4.s": 20, "R4.r": 1, "R4.q": 30, "R4.p": 3, "R4.o": 2, "R4.n": 2, "R4.m": 2, "R4.a": 25, "R4.b": 200, "R4.c": 4, "R4.d": 18, "R4.e": 8, "R4.f": 40, "R4.h": 2, "R4.i": 2, "R4.j": 5, "R4.k": 1})
+    res.floors.update({"R4.x": 1, "R4.w": 1, "R4.v": 1, "R4.u": 2, "R4.t": 1, "R4.s": 20, "R4.r": 1, "R4.q": 30, "R4.p": 3, "R4.o": 2, "R4.n": 2, "R4.m": 2, "R4.a": 25, "R4.b": 200, "R4.c": 4, "R4.d": 18, "R4.e": 8, "R4.f": 40, "R4.h": 2, "R4.i": 2, "R4.j": 5, "R4.k": 1})
     return res
 
 
@@ -1548,6 +1549,64 @@ def _r4_g(prog: Program, res: Result) -> None:
                 listed += 1
     res.analysed["explicit_raise_or_assert_sites_not_caught_locally"] = listed
     res.ok("R4.g", "pyrefact/", "package", "escape triage", f"{listed} explicit raise/assert statements are not caught locally (advisory list: feasibility of a raise is not a static fact)", trivial=True)
+
+
+# ------------------------------------------------------------------------------------------------ R4.x
+def _r4_x(prog: Program, res: Result) -> None:
+    """Backtracking cost of the blank-line patterns.  `(\\n\\s*){k,}` is ambiguous - `\\s*` also matches the `\\n` that the next round
+    of the group could start with - so a FAILING match over a run of N line breaks tries about 2^N splits.  A pattern that ends with
+    a mere `\\n` cannot fail on a long run (the last line break of the run serves), so it is cheap, and after its substitution no
+    run is longer than its replacement.  The patterns with a demanding tail (`\\Z`, a look-ahead, a second group) fail on almost
+    every run and are affordable only on the runs the first one left: obligation for every function that applies several
+    substitutions with the same ambiguous group to one text - the one whose tail is a plain `\\n` (the run limiter) comes first.
+    (30 blank lines in the middle of a file made the formatter hang when the order was swapped.)"""
+    import re._parser as sre
+    n = 0
+    for fn in prog.funcs.values():
+        steps = []
+        for s_ in fn.node.body:
+            if isinstance(s_, ast.Assign) and isinstance(s_.value, ast.Call) and (prog.dotted(s_.value.func) or "") == "re.sub" and len(s_.value.args) >= 3 \
+                    and isinstance(s_.value.args[0], ast.Constant) and isinstance(s_.value.args[0].value, str):
+                steps.append((s_, s_.value.args[0].value))
+        amb = []
+        for s_, ptxt in steps:
+            try:
+                items = list(sre.parse(ptxt))
+            except Exception:
+                continue
+            if not items or str(items[0][0]) not in ("MAX_REPEAT",):
+                continue
+            lo, hi, sub = items[0][1]
+            if hi != sre.MAXREPEAT:
+                continue
+            # body: SUBPATTERN( first item X, ..., last item an unbounded repeat of a class that can match X's first char )
+            body = list(sub)
+            if len(body) == 1 and str(body[0][0]) == "SUBPATTERN":
+                body = list(body[0][1][3])
+            if len(body) < 2 or str(body[-1][0]) != "MAX_REPEAT" or body[-1][1][1] != sre.MAXREPEAT or str(body[0][0]) != "LITERAL":
+                continue
+            first_char = chr(body[0][1])
+            inner = "".join(f"\\{c}" if c in "\\^$.|?*+()[]{}" else c for c in [first_char])
+            tail_class = body[-1][1][2]
+            can = any((str(op) == "IN" and any(str(o2) == "CATEGORY" and "SPACE" in str(a2) and first_char.isspace() or (str(o2) == "LITERAL" and chr(a2) == first_char) for o2, a2 in av))
+                      or (str(op) == "ANY") or (str(op) == "LITERAL" and chr(av) == first_char) for op, av in tail_class)
+            if not can:
+                continue
+            tail = items[1:]
+            limiter = len(tail) == 1 and str(tail[0][0]) == "LITERAL" and chr(tail[0][1]) == first_char
+            amb.append((s_, ptxt, limiter))
+        if len(amb) < 2:
+            continue
+        n += 1
+        first_limiter = next((i for i, a in enumerate(amb) if a[2]), None)
+        ok = first_limiter == 0
+        bad_step = amb[0] if not ok else None
+        res.decide(ok, "R4.x", fn.loc(amb[0][0]), fn.fq, f"{len(amb)} substitutions with the ambiguous group of {amb[0][1]!r}",
+                   "the run limiter (tail: one line break, cannot fail on a long run) is applied first" if ok else
+                   f"{bad_step[1]!r} is applied before the run limiter: its tail fails on every long run of blank lines that is not where the tail wants it, and a failing "
+                   "match of the ambiguous group costs about 2^N steps for N line breaks - 30 blank lines in the middle of a file and the formatter does not return")
+    if n == 0:
+        res.undecided("R4.x", "pyrefact/fixes.py:0", "fixes", "substitutions with an ambiguous repeated group", "none found (fix_too_many_blank_lines is expected)")
 
 
 # ------------------------------------------------------------------------------------------------ R4.w
